@@ -370,41 +370,35 @@ pub(super) fn execute_order_by<'a, S: GraphSnapshot + 'a>(
     params: &'a crate::query_api::Params,
 ) -> PlanIterator<'a, S> {
     let input_iter = execute_plan(snapshot, input, params);
-    let mut rows: Vec<Result<Row>> = Vec::new();
+    // Sorting needs every input row, so an error anywhere in the input (or in a sort key)
+    // is the result of the whole ORDER BY: it must not be reordered among the rows, where a
+    // following SKIP/LIMIT could drop it.
+    let mut sortable: Vec<(Row, Vec<(Value, Direction)>)> = Vec::new();
     for item in input_iter {
         if let Err(err) = params.check_timeout("OrderBy.collect") {
             return PlanIterator::Dynamic(Box::new(std::iter::once(Err(err))));
         }
-        rows.push(item);
-        if let Err(err) = params.check_collection_size("OrderBy.collect", rows.len()) {
+        let row = match item {
+            Ok(row) => row,
+            Err(err) => return PlanIterator::Dynamic(Box::new(std::iter::once(Err(err)))),
+        };
+        for (expr, _) in items {
+            if let Err(err) = ensure_runtime_expression_compatible(expr, &row, snapshot, params) {
+                return PlanIterator::Dynamic(Box::new(std::iter::once(Err(err))));
+            }
+        }
+        let sort_keys: Vec<(Value, Direction)> = items
+            .iter()
+            .map(|(expr, dir)| {
+                let val = crate::evaluator::evaluate_expression_value(expr, &row, snapshot, params);
+                (val, dir.clone())
+            })
+            .collect();
+        sortable.push((row, sort_keys));
+        if let Err(err) = params.check_collection_size("OrderBy.collect", sortable.len()) {
             return PlanIterator::Dynamic(Box::new(std::iter::once(Err(err))));
         }
     }
-    #[allow(clippy::type_complexity)]
-    let mut sortable: Vec<(Result<Row>, Vec<(Value, Direction)>)> = rows
-        .into_iter()
-        .map(|row| match &row {
-            Ok(r) => {
-                for (expr, _) in items {
-                    if let Err(err) =
-                        ensure_runtime_expression_compatible(expr, r, snapshot, params)
-                    {
-                        return (Err(err), vec![]);
-                    }
-                }
-                let sort_keys: Vec<(Value, Direction)> = items
-                    .iter()
-                    .map(|(expr, dir)| {
-                        let val =
-                            crate::evaluator::evaluate_expression_value(expr, r, snapshot, params);
-                        (val, dir.clone())
-                    })
-                    .collect();
-                (row, sort_keys)
-            }
-            Err(_) => (row, vec![]),
-        })
-        .collect();
 
     sortable.sort_by(|a, b| {
         for ((val_a, dir_a), (val_b, _)) in a.1.iter().zip(b.1.iter()) {
@@ -421,5 +415,5 @@ pub(super) fn execute_order_by<'a, S: GraphSnapshot + 'a>(
         std::cmp::Ordering::Equal
     });
 
-    PlanIterator::Dynamic(Box::new(sortable.into_iter().map(|(row, _)| row)))
+    PlanIterator::Dynamic(Box::new(sortable.into_iter().map(|(row, _)| Ok(row))))
 }
